@@ -46,6 +46,7 @@ class Ctx:
         lock = os.path.join(hdir, "Cargo.lock")
         if not os.path.exists(lock):
             return "harness/Cargo.lock missing"
+        self._track_c_sources(hdir)
         if engines & {"native", "strace", "valgrind"}:
             r = subprocess.run(["cargo", "build", "--release", "--offline", "--bin", "vh"], cwd=hdir,
                                env=_env(), capture_output=True, text=True)
@@ -70,6 +71,28 @@ class Ctx:
             if r.returncode != 0:
                 return "miri build: " + _tail(r.stderr, 1500)
         return None
+
+    def _track_c_sources(self, hdir):
+        """The cc build script of signal-hook only emits rerun-if-env-changed, so cargo does not notice an edited
+        extract.c. Force a rebuild of that package (in every target dir) when the C source or build.rs changed."""
+        import hashlib
+        h = hashlib.sha256()
+        for f in ("/repo/src/low_level/extract.c", "/repo/build.rs"):
+            try:
+                h.update(open(f, "rb").read())
+            except OSError:
+                h.update(b"missing")
+        digest = h.hexdigest()
+        os.makedirs(os.path.join(self.root, "target"), exist_ok=True)
+        stamp = os.path.join(self.root, "target", "c-sources.sha256")
+        old = open(stamp).read().strip() if os.path.exists(stamp) else ""
+        if old != digest:
+            for args in (["--release"], ["--release", "--target", "x86_64-unknown-linux-gnu", "--target-dir", os.path.join(self.root, ASAN_TARGET_DIR)]):
+                subprocess.run(["cargo", "clean", "--offline", "-p", "signal-hook"] + args, cwd=hdir, env=_env(), capture_output=True)
+            subprocess.run(["cargo", "+nightly", "clean", "--offline", "-p", "signal-hook", "--target-dir", os.path.join(self.root, MIRI_TARGET_DIR)],
+                           cwd=hdir, env=_env(), capture_output=True)
+            with open(stamp, "w") as f:
+                f.write(digest)
 
     # ------------------------------------------------------------------ steps
     def run_step(self, st):
